@@ -163,3 +163,34 @@ theorem measure_init (c : Cfg) : measure c (init c) = 5 * c.sel.length + 3 := by
   omega
 
 end Grog.Walker
+
+namespace Grog.Walker
+
+/-- from every state some finite run of walker events leads to a state in which no walker event is
+    enabled (the measure bounds its length) -/
+theorem exists_run_to_quiescent (c : Cfg) :
+    ∀ (k : Nat) (s : State), measure c s ≤ k →
+      ∃ tr s', run c s tr = some s' ∧ (∀ e, e ≠ Ev.ctxCancel → step c s' e = none) := by
+  intro k
+  induction k with
+  | zero =>
+    intro s hk
+    refine ⟨[], s, rfl, ?_⟩
+    intro e _
+    cases hs : step c s e with
+    | none => rfl
+    | some s1 => have := measure_step hs; omega
+  | succ k ih =>
+    intro s hk
+    by_cases q : ∀ e, e ≠ Ev.ctxCancel → step c s e = none
+    · exact ⟨[], s, rfl, q⟩
+    · have ⟨e, he⟩ := Classical.not_forall.mp q
+      have ⟨hne, hsome⟩ := Classical.not_imp.mp he
+      cases hs : step c s e with
+      | none => exact absurd hs hsome
+      | some s1 =>
+        have hm := measure_step hs
+        obtain ⟨tr, s', hr, hq⟩ := ih s1 (by omega)
+        exact ⟨e :: tr, s', by simp [run, hs, hr], hq⟩
+
+end Grog.Walker
